@@ -1,4 +1,5 @@
 import Psa.NamesProofs
+import Psa.QuoteMain
 import Psa.RenderProofs
 import Psa.EvalProofs
 import Psa.Generated.Tables
@@ -107,6 +108,26 @@ theorem C13_detail_names_offenders (T : Tables) (relax : Bool) (r : RevId) (p : 
   simp only [runRev, render, ho, Bool.false_eq_true, ↓reduceIte]
   exact detail_names r.kind _ n hn
 
+/-- **Nothing else is named**: when the names and values a revision reports are free of the double-quote byte (container and
+    volume names of API-valid pods are DNS labels; the values are capability names, profile types, volume types, …), every
+    string that stands between quotes in the detail text is the name of a listed offender (`Kind.named`) or one of the values
+    the control quotes (`Kind.quotedValues`: the forbidden values found, and the fixed words "ALL", "RuntimeDefault",
+    "Localhost") — for all eighteen message shapes, every pod, every revision, relaxation on or off. With
+    `C13_detail_names_offenders` the quoted object names of a detail are exactly the offenders. -/
+theorem C13_detail_names_only (T : Tables) (relax : Bool) (r : RevId) (p : Pod)
+    (h : (runRev T relax r p).allowed = false) (hc : Clean (run T relax r p)) (s : Str)
+    (hs : s ∈ quotedSegs (runRev T relax r p).detail) :
+    s ∈ r.kind.named (run T relax r p) ∨ s ∈ r.kind.quotedValues (run T relax r p) := by
+  have ho : (run T relax r p).allowed = false := by rw [← render_allowed r.kind]; exact h
+  simp only [runRev, render, ho, Bool.false_eq_true, ↓reduceIte] at hs
+  exact detail_segs r.kind _ hc s hs
+
+/-- non-vacuity: the quoted segments of a concrete detail, computed; the compliant container "ok" is not among them -/
+example : quotedSegs (runRev Generated.tables false .capsBaseline0
+      { containers := [{ name := b!"a", sc := some { caps := some { add := [b!"NET_ADMIN", b!"CHOWN"] } } }, { name := b!"ok" },
+                       { name := b!"b", sc := some { caps := some { add := [b!"SYS_TIME"] } } }] }).detail =
+    [b!"a", b!"b", b!"NET_ADMIN", b!"SYS_TIME"] := by decide
+
 /-- non-vacuity: a pod with two privileged containers; both names are in the text -/
 example : quoted b!"a" <:+: (runRev Generated.tables false .privileged0
       { containers := [{ name := b!"a", sc := some { privileged := some true } }, { name := b!"ok" },
@@ -131,5 +152,6 @@ theorem C13_volume_names : Generated.volBadKinds = badVolKinds ∧ Generated.vol
 #print axioms C13_privileged_detail
 #print axioms C13_restrictedVolumes_detail_names
 #print axioms C13_detail_names_offenders
+#print axioms C13_detail_names_only
 #print axioms C13_volume_names
 end PSA.Props
